@@ -14,3 +14,6 @@ def run(prog, rep):
     _rk4.run_handles_only(prog, rep)
     from ..rules import r_order as _rov
     _rov.run_lookup_via(prog, rep)
+    # every enumeration under the searches goes through H5Group::objectName: a truncated name silently drops the node (C20j)
+    from ..rules import r_safe as _rs20
+    _rs20.run_namebuf(prog, rep)
